@@ -284,6 +284,7 @@ def check_fromstr(res, lib):
 
 def check_process_error(res, lib):
     ses, words, I = session.process_byte_words(lib)
+    words = session.shaped(words)      # flushes are C15's; an empty text skipped = an empty write
     n = 0
     for word, status in words['Enter']:
         if not any(l.startswith('DISPATCH') and l.endswith('Err(ParseError)') for l in word):
